@@ -1262,9 +1262,23 @@ def add_invariant_checks(cls: ClassT) -> None:
         # We have to distinguish this special case which is used by named
         # tuples and possibly other optimized data structures.
         # In those cases, we have to wrap __new__ instead of __init__.
-        if init_func == object.__init__ and hasattr(cls, "__new__"):
+        if init_func == object.__init__ and getattr(cls, "__new__") is not object.__new__:
             new_func = getattr(cls, "__new__")
             setattr(cls, "__new__", _decorate_new_with_invariants(new_func))
+        elif init_func == object.__init__:
+            # The class defines neither ``__init__`` nor ``__new__``.
+            #
+            # We must not put a wrapper around ``object.__new__`` or ``object.__init__`` into the class: such a wrapper
+            # accepts no arguments, so that a sub-class which defines its own ``__init__`` with arguments, or which
+            # finds one further along its method resolution order, could not be instantiated any more.
+            # Instead, we give the class the constructor which it is lacking; it simply passes the call on.
+            def __init__(self, *args, **kwargs):  # type: ignore
+                super(cls, self).__init__(*args, **kwargs)
+
+            __init__.__qualname__ = "{}.__init__".format(cls.__qualname__)
+            setattr(
+                cls, "__init__", _decorate_with_invariants(func=__init__, is_init=True)
+            )
         else:
             wrapper = _decorate_with_invariants(func=init_func, is_init=True)
             setattr(cls, init_func.__name__, wrapper)
